@@ -215,6 +215,8 @@ def profile(name):
     return Profile(name='c05', unsafe_reads=0.0, implicit_exc=0.0, use_loop_else=True, hostile_finally=True)
   if name == 'c06':
     return Profile(name='c06', unsafe_reads=0.0, implicit_exc=0.0, use_factory=False)
+  if name == 'c07':
+    return Profile(name='c07', unsafe_reads=0.0, implicit_exc=0.0, use_factory=False, lambda_later=False)
   if name == 'c11':
     return Profile(name='c11', adversarial_idents=True, unsafe_reads=0.0, implicit_exc=0.0)
   if name == 'c17':
@@ -278,6 +280,8 @@ class FnCtx(object):
     self.localpool = []
     self.is_helper = False
     self.counters = []
+    self.outer_funcs = {}
+    self.del_stack = []
 
 
 class Gen(object):
@@ -384,6 +388,9 @@ class Gen(object):
                                    and not (fc.in_try and fc.funcs[n]))
     if self._callable_locals:
       choices += ['local', 'local']
+    self._callable_outer = sorted(n for n in fc.outer_funcs if not (fc.in_try and fc.outer_funcs[n]))
+    if self._callable_outer:
+      choices += ['outerlocal', 'outerlocal']
     k = self.rng.choice(choices)
     e = lambda: self.expr(fc, blk, depth + 1)
     if k == 'builtin':
@@ -423,6 +430,11 @@ class Gen(object):
         fc.may_raise = True
       xs_arg = 'list(xs)' if fc.iterating else 'xs'
       return '%s(%s, %s, %s, %s, o, d)' % (callee, e(), e(), self.atom(fc, blk), xs_arg)
+    if k == 'outerlocal':
+      name = self.rng.choice(self._callable_outer)
+      if fc.outer_funcs[name]:
+        fc.may_raise = True
+      return '%s(%s)' % (name, e())
     # local function / lambda
     name = self.rng.choice(self._callable_locals)
     if fc.funcs[name]:
@@ -499,6 +511,10 @@ class Gen(object):
         opts.append(('def', 2))
     if p.use_lambda and fc.level < 2 and not (p.pure and p.lambda_later and depth > 0):
       opts.append(('lambda', 1))
+    if p.use_nested_def and any(n in blk.defined for n in fc.funcs) and not p.pure:
+      opts.append(('alias', 1))
+    if p.use_nested_def and fc.level < 2 and depth < p.max_depth and not p.pure:
+      opts.append(('defboth', 1))
     if p.use_unusual and fc.level == 0 and not fc.in_try:
       opts.append(('unusual', 5))
     if p.use_comprehension:
@@ -666,6 +682,7 @@ class Gen(object):
       eb = blk.fork()
       self.block(fc, eb, ind + 1, depth + 1, 2)
       blk.maybe |= eb.defined | eb.maybe
+      blk.defined &= eb.defined      # names deleted in the else clause
     blk.maybe |= body.defined | body.maybe
     # `while True` exits only via break; definite assignment stays conservative.
 
@@ -730,6 +747,7 @@ class Gen(object):
       eb = blk.fork()
       self.block(fc, eb, ind + 1, depth + 1, 2)
       blk.maybe |= eb.defined | eb.maybe
+      blk.defined &= eb.defined      # names deleted in the else clause
     blk.maybe |= body.defined | body.maybe
 
   def s_break(self, fc, blk, ind, depth):
@@ -775,6 +793,8 @@ class Gen(object):
     self.emit(ind, 'del %s' % v)
     blk.defined.discard(v)
     blk.maybe.discard(v)
+    for st in fc.del_stack:
+      st.add(v)
 
   def s_with(self, fc, blk, ind, depth):
     if self.chance(0.4):
@@ -793,6 +813,8 @@ class Gen(object):
     has_handlers = self.chance(0.7)
     has_finally = (not has_handlers) or self.chance(0.35)
     fc.in_try += 1
+    deleted = set()
+    fc.del_stack.append(deleted)
     self.emit(ind, 'try:')
     body = blk.fork()
     self.block(fc, body, ind + 1, depth + 1, 3)
@@ -801,7 +823,7 @@ class Gen(object):
       nh = self.rng.randint(1, 2)
       used_bare = False
       for k in range(nh):
-        hb = Block(blk.defined, blk.maybe | body.defined | body.maybe)
+        hb = Block(blk.defined - deleted, blk.maybe | body.defined | body.maybe)
         r = self.rng.random()
         if r < 0.35:
           hdr = 'except E1:'
@@ -827,6 +849,7 @@ class Gen(object):
         self.block(fc, body, ind + 1, depth + 1, 2)
     ends.append(body)
     fc.in_try -= 1
+    fc.del_stack.pop()
     j = join(ends, blk)
     if has_finally:
       self.emit(ind, 'finally:')
@@ -838,9 +861,11 @@ class Gen(object):
         for _ in range(self.rng.randint(1, 2)):
           self.emit(ind + 1, 'T(%r, %d)' % (self.newtag(), self.rng.randint(0, 9)) if not self.p.pure else 'pass')
       else:
-        fb = Block(blk.defined, blk.maybe | j.maybe | j.defined)
+        fb_entry = blk.defined - deleted
+        fb = Block(fb_entry, blk.maybe | j.maybe | j.defined)
         self.block(fc, fb, ind + 1, depth + 1, 2)
         j.defined |= (fb.defined - blk.defined) | set()
+        j.defined -= (fb_entry - fb.defined)     # names deleted inside the finally block
         j.maybe |= fb.maybe | fb.defined
       fc.in_try -= 1
       fc.in_finally -= 1
@@ -854,6 +879,9 @@ class Gen(object):
     inner.params = {prm}
     inner.funcs = {}
     inner.localpool = list(LOCAL_POOLS[inner.level])
+    # local functions of the enclosing function that exist now may be called from inside (indirect closures)
+    inner.outer_funcs = {n: r for n, r in fc.funcs.items() if n in blk.defined}
+    inner.outer_funcs.update(fc.outer_funcs)
     inner.iterating = ['xs']
     inner.globals_declared = set()
     self.emit(ind, 'def %s(%s):' % (name, prm))
@@ -872,7 +900,7 @@ class Gen(object):
     if not ib.dead:
       self.emit(ind + 1, 'return %s' % self.expr(inner, ib, 1))
     self._hoist(inner, inner_top, ind + 1)
-    fc.captured |= inner.enclosing | inner.nonlocals
+    fc.captured |= inner.enclosing | inner.nonlocals | set(inner.outer_funcs)
     fc.funcs[name] = inner.may_raise
     blk.defined.add(name)
     if self.chance(0.6) and not (fc.in_try and inner.may_raise):
@@ -881,6 +909,36 @@ class Gen(object):
       v = self.target_var(fc, blk)
       self.emit(ind, '%s = %s(%s)' % (v, name, self.expr(fc, blk, 1)))
       blk.defined.add(v)
+
+  def s_alias(self, fc, blk, ind, depth):
+    src = self.rng.choice(sorted(n for n in fc.funcs if n in blk.defined))
+    name = self.fresh('al')
+    self.emit(ind, '%s = %s' % (name, src))
+    fc.funcs[name] = fc.funcs[src]
+    fc.captured.add(src)
+    blk.defined.add(name)
+
+  def s_defboth(self, fc, blk, ind, depth):
+    """The same local function defined in both branches of an if (neither definition dominates later uses)."""
+    name = self.fresh('fb')
+    self.emit(ind, 'if %s:' % self.cond(fc, blk))
+    raising = False
+    for branch in (0, 1):
+      if branch:
+        self.emit(ind, 'else:')
+      for _ in range(self.rng.randint(0, 2)):
+        v = self.target_var(fc, blk)
+        self.emit(ind + 1, '%s = %s' % (v, self.atom(fc, blk, False)))
+        blk.maybe.add(v)
+      prm = self.fresh('p')
+      reads = sorted((blk.defined | fc.enclosing) - set(fc.funcs))
+      r = self.rng.choice(reads) if reads else '0'
+      self.emit(ind + 1, 'def %s(%s):' % (name, prm))
+      self.emit(ind + 2, 'return %s + %s + %d' % (prm, r, branch))
+      if reads:
+        fc.captured.add(r)
+    fc.funcs[name] = raising
+    blk.defined.add(name)
 
   def s_lambda(self, fc, blk, ind, depth):
     name = self.fresh('lam')
